@@ -54,6 +54,12 @@ CLAIMED["C19"] = {
     "technique": "property-based testing: random windows/depths/chunkings vs NumPy reference definitions",
 }
 
+CLAIMED["C14"] = {
+    "text": PROG + " with a rechunk statement (all spec forms incl. auto/bytes/block_size_limit/balance) forced at a random position; every rechunk's advertised chunks compared with an independent normalisation of its spec (own reference for explicit forms, direct normalize_chunks call + byte bound for auto forms), block shapes of the optimised graph checked, outputs compared with NumPy; second generator for unknown sizes along unchanged axes. " + EXPL,
+    "note": "Explicit-spec semantics as documented for rechunk; auto forms may exceed the limit by array.chunk-size-tolerance because rechunk always passes previous_chunks; per-axis byte strings and balance=True: validity only.",
+    "technique": "property-based testing: random programs with forced rechunks vs reference normalisation + NumPy values",
+}
+
 NOT_APPLICABLE = {
     "C22": "native Rust extension cannot be built offline (pyo3 0.29 and other crates are absent from the offline cargo registry; no prebuilt .so), so no native layer can be instantiated to generate inputs against; see DESIGN.md section 4 C22",
 }
